@@ -354,11 +354,16 @@ func guardNil(f *ssa.Function, callee *ssa.Function, pred func(args []ssa.Value)
 
 // guardBool: edges on which the bool result of a call to callee equals want.
 func guardBool(f *ssa.Function, callee *ssa.Function, want bool, pred func(args []ssa.Value) bool) map[edge]bool {
+	return edgesWhere(f, boolGuardPred(callee, want, pred))
+}
+
+// boolGuardPred: the atom-level test behind guardBool (usable inside a combined edgesWhere predicate).
+func boolGuardPred(callee *ssa.Function, want bool, pred func(args []ssa.Value) bool) func(a Atom, holds bool) bool {
 	var view *ssa.Function
 	if curProg != nil && callee != nil {
 		view = curProg.nilViewOf[callee]
 	}
-	return edgesWhere(f, func(a Atom, holds bool) bool {
+	return func(a Atom, holds bool) bool {
 		// callee(args) == (view(args) != nil): a nil test of view's result is a test of the predicate
 		if view != nil && a.Kind == "nil" && holds == !want {
 			if cl, _ := callOf(a.X); cl != nil && calleeOf(&cl.Call) == view {
@@ -373,7 +378,7 @@ func guardBool(f *ssa.Function, callee *ssa.Function, want bool, pred func(args 
 			return false
 		}
 		return pred == nil || pred(cl.Call.Args)
-	})
+	}
 }
 
 func isFieldOf(v ssa.Value, field string) (base ssa.Value, ok bool) {
